@@ -7,21 +7,34 @@ from .. import common as C
 from .. import e2e
 
 MANIFEST = dict(
-    text="Lean 4 theorems over an executable model of burl_normalize / buffer_urldecode_path / "
-         "buffer_path_simplify / http_request_parse_target (canonical absolute path, no dot segments, for "
-         "every input and option set), the host policy (accepted strict host = one clean path segment), "
-         "doc_root + rel_path composition, mod_alias_remap, mod_simple_vhost / mod_evhost doc-root "
-         "construction, mod_userdir, X-Sendfile / X-Sendfile2 path checks, WebDAV Destination mapping and "
-         "stat_cache_path_contains_symlink (lexical containment under the configured root for all inputs); "
-         "models tied to the C by exhaustive small-scope + random + mutated-traversal differential runs under "
-         "ASan/UBSan and by an end-to-end stream against the real server (h1 + h2) with canary files outside "
-         "every root",
-    note="trusted: Lean kernel (+propext, Quot.sound, Classical.choice), hand-written models validated by the "
-         "h_url / h_docroot correspondence and the e2e stream, byte-class table and flag values regenerated "
-         "from burl.c/burl.h each run; configuration assumed well-formed (absolute canonical roots / alias "
-         "targets); TOCTOU races, case-insensitive filesystems and kernel path resolution outside the model; "
-         "mod_userdir getpwnam() variant external",
-    tech="Lean 4 proof over hand-written model + differential correspondence (in-process C harness + real server)",
+    text="Lean 4 theorems (37) + correspondence.  PROVED over the model: the cursor-level transcription of "
+         "buffer_path_simplify (the in-place two-pointer algorithm as in buffer.c) equals a segment-stack "
+         "specification for every byte string, and that specification returns a canonical absolute path (no "
+         "empty/'.'/'..' segment) for every absolute input; the same for buffer_urldecode_path on NUL-free input; "
+         "hence http_request_parse_target yields a canonical url-path for every target and option set (the "
+         "final decode+simplify step; burl_normalize itself is a specification-style model, no theorem depends "
+         "on it).  Composition theorem c02_serve_contained: for every request (target, Host/:authority, "
+         "CONNECT / OPTIONS * class) under every parse option set incl. the default host-strict+normalize, and "
+         "every modelled configuration (doc root, simple-vhost, evhost, alias table, userdir basepath, index "
+         "files) a path handed to the file layer lies lexically below a root the configuration designates "
+         "(or, for an alias target written without trailing '/', has it as string prefix with no dot segment: "
+         "documented mod_alias prefix semantics).  Separate theorems: strict host = one clean segment; evhost "
+         "placeholders never '..' nor '/'; X-Sendfile path canonical and below a configured docroot (config-"
+         "time canonicalisation proved); WebDAV Destination canonical and mapped below the DOCUMENT root (not "
+         "the webdav-enabled url scope: known finding KF8); symlink walk = 0 implies no link on the path incl. "
+         "the index-resolved one.  TESTED, not proved: that the C equals the models (in-process differential "
+         "h_url/h_docroot, exhaustive small scope incl. NUL + random + mutated corpora, ASan/UBSan) and that the "
+         "real server composes them as modelled (e2e, 19 configurations, canary files outside every root, "
+         "h1/h2/extended CONNECT, request sequences across follow-symlink contexts with warm stat cache).",
+    note="proof level for the path algorithm and the composition over hand-written models; correspondence-only: "
+         "model = C for burl_normalize, host policy, mod_alias/simple_vhost/evhost/userdir/indexfile, X-Sendfile, "
+         "WebDAV Destination, symlink walk (differential), response.c glue, stat cache, PATH_INFO, other handlers "
+         "(e2e canaries).  Outside: TOCTOU, kernel path resolution, case-insensitive filesystems, config "
+         "well-formedness (absolute canonical roots / alias targets), IPv6 host normalisation, getpwnam() "
+         "userdir, mod_magnet/vhostdb/dirlisting/ssi includes.  NUL-freeness of the request path is C01's "
+         "(parser); lenient-host evhost can yield a harmless '.' segment (witness theorem).",
+    tech="Lean 4 proof over hand-written models (cursor-level transcription of the C path algorithm proved equal "
+         "to its specification) + differential correspondence (in-process C harnesses + real server)",
     ref="6/C02")
 
 PATH_ALPHA = [b"/", b".", b"%", b"2", b"e", b"F", b"a", b"\\", b"?", b"\x01", b"\x7f",
@@ -692,12 +705,19 @@ BASE_FILES = ["docroot/f.txt", "docroot/sub/g.txt", "docroot/sub/deep/h.txt", "d
               "al1/a.txt", "al1/s/b.txt", "al2/c.txt", "al3/lower.txt", "al4_eqlen_/e.txt",
               "vh/a.example/htdocs/v.txt", "vh/b.example/htdocs/v.txt", "vh/default/htdocs/v.txt", "vh/a.example/w.txt",
               "vh/default/w.txt", "vh/example/htdocs/v.txt", "xs/s.txt", "xs/d/t.txt",
-              "vh/htdocs/v.txt", "vh/w.txt", "vh/v.txt", "docroot/app/page.shtml", "docroot/p.shtml"]
+              "vh/htdocs/v.txt", "vh/w.txt", "vh/v.txt", "docroot/app/page.shtml", "docroot/p.shtml",
+              "home/bob/public_html/u.txt", "home/bob/public_html/sub/v.txt", "home/alice/public_html/a.txt",
+              "docroot/idx/index.html", "docroot/idx2/sub/idx.html", "al2/index.html"]
 BASE_CANARIES = ["canary.txt", "outside/canary.txt", "docroot-x/canary.txt", "al1-secret/canary.txt", "al/canary.txt",
                  "htdocs/canary.txt", "htdocs/v.txt",
                  "xs-secret/canary.txt", "xsx/canary.txt", "v.txt", "w.txt", "vh-secret/htdocs/v.txt",
                  "outside/htdocs/v.txt", "outside/v.txt", "outside/w.txt", "outside/htdocs/canary.txt",
-                 "outside/secret.shtml", "canary.shtml", "docroot-x/canary.shtml", "page.shtml", "app/page.shtml"]
+                 "outside/secret.shtml", "canary.shtml", "docroot-x/canary.shtml", "page.shtml", "app/page.shtml",
+                 "home/canary.txt", "home/bob/canary.txt", "home/bob/private/secret.txt", "index.html", "outside/index.html"]
+
+
+def _common_for(cfg):
+    return (E2E_BASE + 'server.stat-cache-engine = "disable"\n') if cfg.get("noindexline") else E2E_COMMON
 
 
 def static_configs():
@@ -721,6 +741,18 @@ def static_configs():
     cfgs["ssi-default"] = dict(conf='ssi.extension = (".shtml")\n', modules=("mod_ssi",), flags=P_DEFAULT[0], lc=0, vh=("none",), aliases=[],
                                roots=["docroot"], urls=[b"/app/page.shtml", b"/p.shtml", b"/f.txt", b"/sub/g.txt"], hosts=hosts_plain,
                                prefixes=[b"", b"/app", b"/sub"], connect=True)
+    cfgs["userdir-default"] = dict(conf='userdir.basepath = "@ROOT@/home/"\nuserdir.path = "public_html"\n', modules=("mod_userdir",),
+                                   flags=P_DEFAULT[0], lc=0, vh=("none",), aliases=[], userdir=(0, "home/", b"public_html"),
+                                   roots=["docroot", "home/bob/public_html", "home/alice/public_html"],
+                                   urls=[b"/~bob/u.txt", b"/~bob/sub/v.txt", b"/~alice/a.txt", b"/f.txt", b"/~bob/"], hosts=hosts_plain,
+                                   prefixes=[b"/~bob", b"/~bob/sub", b"/~", b"/~..", b"/~bob/..", b"/~alice", b"/~.", b"/~bob%2f.."],
+                                   tails=[b"/canary.txt", b"/home/canary.txt", b"/private/secret.txt", b"/bob/canary.txt", b"/alice/public_html/a.txt"])
+    cfgs["index-default"] = dict(conf='index-file.names = ("index.html", "sub/idx.html")\n', noindexline=True, modules=(),
+                                 flags=P_DEFAULT[0], lc=0, vh=("none",), aliases=[(b"/al2/", "al2/")], index=[b"index.html", b"sub/idx.html"],
+                                 roots=["docroot", "al2"], urls=[b"/idx/", b"/idx2/", b"/idx/index.html", b"/al2/", b"/al2/c.txt", b"/f.txt", b"/sub/"],
+                                 hosts=hosts_plain, prefixes=[b"", b"/idx", b"/idx2", b"/al2"])
+    cfgs["index-default"]["conf"] = 'alias.url = ("/al2/" => "@ROOT@/al2/")\n' + cfgs["index-default"]["conf"]
+    cfgs["index-default"]["modules"] = ("mod_alias",)
     vhosts = [b"a.example", b"b.example", b"A.Example", b"a.example:80", b"a.example:8080", b"a.example.", b"unknown.example",
               b"www.a.example", b"example", b"..", b".", b"../outside", b"a.example/../../outside", b"..:80", b"a..example",
               b"%2e%2e", b".a.example", b"vh-secret", b":80", b"a.example:80:90", b"/", b"a.example/", b"..%2f", b"a.example/htdocs",
@@ -772,7 +804,8 @@ def gen_targets(rng, cfg, n):
         if r_ < 0.35:
             t = respell(rng, rng.choice(cfg["urls"]))
         elif r_ < 0.8:
-            t = rng.choice(cfg["prefixes"]) + b"".join(rng.choice(DOTDOT) for _ in range(rng.randint(1, 5))) + rng.choice(CANARY_TAILS)
+            t = rng.choice(cfg["prefixes"]) + b"".join(rng.choice(DOTDOT) for _ in range(rng.randint(1, 5))) + \
+                rng.choice(CANARY_TAILS + cfg.get("tails", []) * 3)
             if rng.random() < 0.3:
                 t = respell(rng, t)
         elif r_ < 0.9:
@@ -918,9 +951,14 @@ def e2e_static_cases(ctx, name, cfg, n):
         tr = "h2" if r_ < 0.25 else ("abs" if r_ < 0.4 and b"/" not in h and t.startswith(b"/") else "h1")
         if cfg.get("connect") and rng.random() < 0.5:
             tr = "h2c"
+        elif rng.random() < 0.04:
+            # CONNECT without a handler / with a raw, un-normalised target: must never become a path
+            tr = "connect"
+            t = rng.choice([t, t.lstrip(b"/") or b"x", b"1" + t, b"a.example:80" + t])
         if tr != "h2" and (h != h.strip(b" \t") or not h):
             h = b"a.example"
         cases.append({"cfg": name, "host": h, "target": t, "tr": tr})
+    cases.append({"cfg": name, "host": b"a.example", "target": b"*", "tr": "optstar"})
     if cfg["vh"][0] != "none":
         # directed: every hostile host against the names planted next to / above the vhost roots
         for h in cfg["hosts"]:
@@ -951,11 +989,34 @@ def e2e_model_static(cfg, rootb, cases):
     al = []
     for k, v in cfg["aliases"]:
         al += [C.hx(k), C.hx(rootb + b"/" + v.encode())]
-    lines = [jn("serve", fl, str(cfg["lc"]), C.hx(rootb + b"/docroot"), *vt, str(len(dirs[i])), *dirs[i], str(len(al)), *al,
-                C.hx(c["host"]), C.hx(c["target"])) for i, c in enumerate(cases)]
+    ud = ["~"]
+    if cfg.get("userdir"):
+        lh, bp, up = cfg["userdir"]
+        ud = [str(lh), C.hx(rootb + b"/" + bp.encode()), C.hx(up)]
+    names = cfg.get("index", [])
+
+    def line(i, c, idx, ex):
+        special = "1" if c["tr"] in ("connect", "optstar") else "0"
+        return jn("request", fl, special, str(cfg["lc"]), C.hx(rootb + b"/docroot"), *vt, str(len(dirs[i])), *dirs[i], str(len(al)), *al,
+                  *ud, str(len(idx)), *[C.hx(v) for v in idx], str(len(ex)), *[C.hx(x) for x in ex], C.hx(c["host"]), C.hx(c["target"]))
+    # pass 1 without index files: the physical path; pass 2 with the index candidates that exist
+    lines = [line(i, c, [], []) for i, c in enumerate(cases)]
     out, rc, err = C.run_model("url", lines)
     if rc != 0 or len(out) != len(lines):
         return None, err
+    if names:
+        lines2 = []
+        for i, (c, o) in enumerate(zip(cases, out)):
+            ex = []
+            t = o.split(" ")
+            if t[0] == "file":
+                pth = C.unhx(t[1])
+                ex = [x for x in (pyjoin(pth, v) for v in names) if os.path.exists(x)]
+            lines2.append(line(i, c, names, ex))
+        lines = lines2
+        out, rc, err = C.run_model("url", lines)
+        if rc != 0 or len(out) != len(lines):
+            return None, err
     return list(zip(lines, out)), None
 
 
@@ -969,6 +1030,10 @@ def e2e_run_static(port, cases, nthreads=8):
                     res.append(h2.get(c["host"], c["target"]))
                 elif c["tr"] == "h2c":
                     res.append(_h2_ext_connect(port, c["host"], c["target"]))
+                elif c["tr"] == "connect":
+                    res.append(_h1_get(port, c["host"], c["target"], method=b"CONNECT"))
+                elif c["tr"] == "optstar":
+                    res.append(_h1_get(port, c["host"], b"*", method=b"OPTIONS"))
                 else:
                     res.append(_h1_get(port, c["host"], c["target"], absolute=(c["tr"] == "abs")))
             except OSError as ex:
@@ -999,7 +1064,14 @@ def e2e_eval_static(ctx, name, cfg, rootb, case, model_line, pred, obs):
     if f is not None and not _under(f, roots):
         return "file outside the configured roots served: " + f.decode("latin-1"), None
     p = pred.split(" ")
+    p[0] = {"file": "path", "ans": "rej"}.get(p[0], p[0])
     if p[0] == "skip" or status is None:
+        return None, None
+    if case["tr"] in ("connect", "optstar"):
+        if f is not None:
+            return "%s request served a file: %s" % (case["tr"], f.decode("latin-1")), None
+        if case["tr"] == "optstar" and status != 200:
+            return None, "OPTIONS * answered %s" % status
         return None, None
     if f is not None:
         if p[0] != "path":
@@ -1060,7 +1132,7 @@ def e2e_report(ctx, stream, case, model_line, pred, obs, ov, cv):
 
 def e2e_static(ctx, bd, name, cfg, n):
     t0 = time.time()
-    srv = e2e.Server(bd, E2E_COMMON + cfg["conf"], modules=cfg["modules"])
+    srv = e2e.Server(bd, _common_for(cfg) + cfg["conf"], modules=cfg["modules"])
     plant(srv.root, BASE_FILES, BASE_CANARIES)
     rootb = srv.root.encode()
     cases = e2e_static_cases(ctx, name, cfg, n)
@@ -1086,7 +1158,7 @@ def e2e_static(ctx, bd, name, cfg, n):
     ndis = nor = 0
     for case, (mline, pred), ob in zip(cases, ml, obs):
         ctx.evaluations += 1
-        ctx.keys["e2e:%s:%s:%s:%s" % (name, case["tr"], pred.split(" ")[0] + (pred.split(" ")[1] if pred.startswith("rej") else ""),
+        ctx.keys["e2e:%s:%s:%s:%s" % (name, case["tr"], pred.split(" ")[0] + (pred.split(" ")[1] if pred.startswith("ans") else ""),
                                        "file" if served_file(ob[0], ob[1]) else ob[0])] += 1
         ov, cv = e2e_eval_static(ctx, name, cfg, rootb, case, mline, pred, ob)
         if ov or cv:
@@ -1318,7 +1390,7 @@ def e2e_webdav(ctx, bd, n):
                 ov = "canary content in WebDAV response"
             elif changed:
                 pp = pred.split(" ")
-                if pp[0] != "path":
+                if pp[0] not in ("path", "file"):
                     cv = "model rejects (%s) but the tree changed: %s" % (pred, changed[0].decode("latin-1"))
                 else:
                     mp = _norm(C.unhx(pp[1]))
@@ -1561,16 +1633,16 @@ def run_e2e(ctx, only=None):
         return
     if not getattr(ctx, "model_ok", True):
         return
-    n = 1500 if ctx.quick else 10000
+    n = 1200 if ctx.quick else 10000
     cfgs = static_configs()
     jobs = []
     for name, cfg in cfgs.items():
         if only is None or only == name:
             jobs.append(lambda name=name, cfg=cfg: e2e_static(ctx, bd, name, cfg, n))
     if only in (None, "xsendfile"):
-        jobs.append(lambda: e2e_xsendfile(ctx, bd, n))
+        jobs.append(lambda: e2e_xsendfile(ctx, bd, n * 2 // 3))
     if only in (None, "webdav"):
-        jobs.append(lambda: e2e_webdav(ctx, bd, n))
+        jobs.append(lambda: e2e_webdav(ctx, bd, n // 2))
     if only in (None, "symlink"):
         jobs.append(lambda: e2e_symlink(ctx, bd, 1500 if ctx.quick else 8000))
     if only in (None, "symlink-ctx"):
@@ -1596,7 +1668,7 @@ def replay_e2e(ctx, rep):
         bd, err = e2e.build_server()
         cfg = cfgs[cfgname]
         c = {"cfg": cfgname, "host": case["host"].encode("latin-1"), "target": case["target"].encode("latin-1"), "tr": case["tr"]}
-        srv = e2e.Server(bd, E2E_COMMON + cfg["conf"], modules=cfg["modules"])
+        srv = e2e.Server(bd, _common_for(cfg) + cfg["conf"], modules=cfg["modules"])
         plant(srv.root, BASE_FILES, BASE_CANARIES)
         rootb = srv.root.encode()
         ml, err = e2e_model_static(cfg, rootb, [c])
